@@ -44,22 +44,24 @@ SLegal(s, lb) ==
   /\ lb.op \in SAllOps
   /\ IF lb.op \in SCtors
      THEN ~s.s[lb.c].ex /\ (lb.d # 0 => s.s[lb.d].ex /\ lb.d # lb.c)
-     ELSE IF lb.op = "dropNode" THEN s.node.has
+     ELSE IF lb.op \in SNodeOps THEN s.node.has
      ELSE /\ s.s[lb.c].ex
           /\ (lb.d # 0 /\ lb.op \notin {"insertNode", "insertNodeHint"} => s.s[lb.d].ex)
           /\ LET n == Len(s.s[lb.c].elems) IN
              /\ (lb.op \in {"insertHint", "insertHintRv", "emplaceHint", "insertNodeHint"} => lb.h <= n)
-             /\ (lb.op \in {"erasePos", "extractPos"} => lb.h < n)
+             /\ (lb.op \in {"erasePos", "extractPos", "index"} => lb.h < n)
+             /\ (lb.op \in {"front", "back"} => n > 0)
              /\ (lb.op = "eraseRange" => lb.h <= lb.n /\ lb.n <= n)
              /\ (lb.op \in {"insertNode", "insertNodeHint"} => s.node.has /\ s.node.t = STypeId[lb.c])
              /\ (lb.op \in {"extractKey", "extractPos"} => ~s.node.has)
 
 RangeFreeOps == {"ctorRange", "ctorIlist", "ctorFromVec", "insertRange", "insertIlist", "assignIlist", "assignVec"}
 HintOps == {"insertHint", "insertHintRv", "emplaceHint", "insertNodeHint"}
-IterOps == {"iterate", "eraseLoop", "erasePos", "eraseRange", "find", "findK", "insert", "insertRv", "emplace", "insertHint",
+IterOps == {"iterate", "eraseLoop", "eraseIf", "erasePos", "eraseRange", "find", "findK", "insert", "insertRv", "emplace", "insertHint",
             "insertHintRv", "emplaceHint", "insertNode", "insertNodeHint"}
 LookupOps == SLookups \cup SLookupsK \cup {"insert", "insertRv", "emplace", "eraseKey"}
-Mutating == SAllOps \ (SLookups \cup SLookupsK \cup {"iterate", "eq", "ne", "lt", "le", "gt", "ge"})
+SObservers == SLookups \cup SLookupsK \cup {"iterate", "eq", "ne", "lt", "le", "gt", "ge", "front", "back", "index", "at", "nodeValue"}
+Mutating == SAllOps \ SObservers
 
 SortedBy(cmp, s) == \A i \in 1..Len(s) - 1 : Lt(cmp, s[i], s[i + 1])
 
@@ -179,7 +181,7 @@ TOp ==
                 THEN "more than 2N+2 comparator calls for a lookup in an inline SmallSet"
            ELSE ""
          \* ---- C20 (a): const operations leave the representation of the set they read unchanged
-         ConstOps == SLookups \cup SLookupsK \cup {"iterate", "eq", "ne", "lt", "le", "gt", "ge", "ctorCopy"}
+         ConstOps == (SObservers \ {"nodeValue"}) \cup {"ctorCopy"}
          c20Fail ==
            IF "h0" \notin DOMAIN ev THEN ""
            ELSE IF (lb.op \in ConstOps \/ (lb.op = "assignCopy" /\ lb.c # lb.d)) /\ ~faulted /\ ev.h0 # ev.h1
